@@ -55,10 +55,6 @@ func (r *Runner) Do(op *Sexp, nontrivial bool, family string) string {
 	return res
 }
 
-func replayOracles(op *Sexp) []string {
-	return oracleFor(op, execOp(op))
-}
-
 // oracleFor evaluates the property's direct statement on the implementation's
 // result for one op. Returns failure messages.
 func oracleFor(op *Sexp, res string) []string {
@@ -83,6 +79,12 @@ func oracleFor(op *Sexp, res string) []string {
 		return oracleTagtool(op, res)
 	case "jrt":
 		return oracleJRT(op, res)
+	case "jdeep":
+		return oracleJDeep(op, res)
+	case "buildself":
+		if res != "err" {
+			bad("a type that refers to itself without a struct in between must be rejected with an error, got %q", res)
+		}
 	case "desc":
 		return oracleDesc(op, res)
 	case "internsched":
@@ -211,6 +213,9 @@ func oracleFor(op *Sexp, res string) []string {
 	case "dec":
 		if res != "err" && !strings.HasPrefix(res, "ok ") && res != "builderr" {
 			bad("decode outcome %q", res)
+		}
+		if lastDecValid && lastDecAlloc > lastDecBound {
+			bad("allocated %d bytes while decoding %d input bytes (bound for this target type: %d)", lastDecAlloc, len(arg(4))/2, lastDecBound)
 		}
 	case "laws":
 		// size == len(append), with and without tag; framing
